@@ -99,3 +99,15 @@ VARIANTS = [
       "max_dim + max_size + 2, n_items + 1), force_signed=True))",
       "silent"),
 ]
+
+VARIANTS += [
+    V("wrapper-width-height-swapped", E1,
+      "        y.n_bins = _decode(x, y, self.__instance, self.__instance."
+      "bin_width,\n                           self.__instance.bin_height)",
+      "        y.n_bins = _decode(x, y, self.__instance, self.__instance."
+      "bin_height,\n                           self.__instance.bin_width)",
+      "fire", "D1.8"),
+    V("wrapper-bin-count-not-stored", E1,
+      "        y.n_bins = _decode(x, y, self.__instance,",
+      "        _ = _decode(x, y, self.__instance,", "fire", "D1.8"),
+]
